@@ -19,6 +19,7 @@ import Dyce.HistProofs
 | `(m+n)@h == m@h + n@h` | `C04_matmul_add` |
 | `n@p` holds `n` copies of every die | `C04_pool_matmul` |
 | `P(...)` flattens / drops empty / ignores order / canonical order | `C04_pool_flatten`, `C04_pool_drop_empty`, `C04_pool_perm`, `C04_pool_invariant` |
+| a slice `p[i:j:k]` is a pool in the same canonical order (any step) | `C04_slice` |
 | `P.total` | `C04_pool_total`, `C04_pool_total_empty` |
 | `p.h()` = sum of dice; `(n@P(h)).h() == n@h` | `C03_noargs`, `C04_pool_h_matmul` |
 -/
@@ -69,6 +70,27 @@ theorem C04_pool_drop_empty (hle : TotalOrderB le) (a c : List (PArg α)) (h : H
 theorem C04_pool_invariant (hle : TotalOrderB le) (args : List (PArg α)) :
     (∀ h ∈ mkPool le args, 0 < total h) ∧ (mkPool le args).Pairwise (fun a b => lexLe le a b = true) :=
   mkPool_invariant hle args
+
+/-- a slice of a pool is a pool again: its dice are in canonical order whatever the order of the selected
+positions (negative steps included), all have a positive total, and they are exactly the selected dice -/
+theorem C04_slice (hle : TotalOrderB le) (args : List (PArg α)) (idxs : List Nat) :
+    (poolSlice le (mkPool le args) idxs).Pairwise (fun a b => lexLe le a b = true) ∧
+    (∀ h ∈ poolSlice le (mkPool le args) idxs, 0 < total h) ∧
+    poolSlice le (mkPool le args) idxs ~ idxs.filterMap (fun j => (mkPool le args)[j]?) := by
+  have hpos : ∀ h ∈ idxs.filterMap (fun j => (mkPool le args)[j]?), 0 < total h := by
+    intro h hh
+    obtain ⟨j, _, hj⟩ := List.mem_filterMap.mp hh
+    exact (mkPool_invariant hle args).1 h (List.mem_of_getElem? hj)
+  refine ⟨?_, ?_, ?_⟩
+  · exact List.pairwise_mergeSort (fun a b c => (lexLe_order hle).trans a b c)
+      (fun a b => (lexLe_order hle).total a b) _
+  · intro h hh
+    exact hpos h (List.mem_filter.mp ((canonDice_perm_filter (le := le) _).subset hh)).1
+  · refine (canonDice_perm_filter (le := le) _).trans ?_
+    rw [List.filter_eq_self.mpr]
+    intro h hh
+    have := hpos h hh
+    simp only [ne_eq, decide_eq_true_eq]; omega
 
 theorem C04_pool_total (dice : List (Hist α)) :
     poolTotal dice = wsum (poolTuples dice) (fun _ => 1) := poolTotal_eq dice
